@@ -82,8 +82,15 @@ Fixpoint find_from (q : re) (s : list N) (i : N) : option N :=
 Definition rx_find_start (p : rx) (s : list N) : option N :=
   if rx_bol p then (if dmatch (prefix_re p) s then Some 0 else None) else find_from (prefix_re p) s 0.
 
-(* regexp_instr.rs: `pattern.find(s).map_or(0, |m| m.start() + 1)` -- m.start() is a BYTE offset *)
+(* regexp_instr.rs: `pattern.find(s).map_or(0, |m| s[..m.start()].chars().count() + 1)`:
+   m.start() is a byte offset, the prefix up to it is sliced and its characters counted *)
 Definition impl_regexp_instr (p : rx) (cs : list N) : outcome Z :=
+  match rx_find_start p cs with
+  | Some i => bind (slice_to cs (blen (takeN i cs))) (fun pre => Ok (Z.of_N (lenN pre) + 1)%Z)
+  | None => Ok 0%Z
+  end.
+(* before add0e7ca2: `m.start() + 1`, the byte offset itself; kept for the regression witness *)
+Definition old_impl_regexp_instr (p : rx) (cs : list N) : outcome Z :=
   match rx_find_start p cs with
   | Some i => Ok (Z.of_N (blen (takeN i cs)) + 1)%Z
   | None => Ok 0%Z
